@@ -182,6 +182,11 @@ func (r *transport) RoundTrip(req *http.Request) (*http.Response, error) {
 	urlKey := r.uk.URLKey(req.URL)
 
 	if !r.rmc.IsRequestMethodUnderstood(req) {
+		if internal.ParseCCRequestDirectives(req.Header).OnlyIfCached() {
+			// RFC 9111 §5.2.1.7: the cache cannot answer this request itself and
+			// must not forward it.
+			return make504Response(req)
+		}
 		return r.handleUnrecognizedMethod(req, urlKey)
 	}
 
